@@ -327,3 +327,22 @@ def run(ctx):
                       key=f"R10.4:make_selector:engine-changed:{src_cls}")
         else:
             ctx.fail("R10.4", construct, "result produced under an unrecognised condition", n.ast, key="R10.4:make_selector:unrecognised-branch")
+
+    # ------------------------------------------------------------------ R10.5 the caller's engine is the one that filters
+    ctx.rule("R10.5", "a reader turns the selector it was given into a selector object with make_selector(selector) and nothing else: forcing an engine "
+                      "(force_compiled=True) replaces the caller's interpreted selector by the compiled one, and the two differ on membership tests with missing "
+                      "fields and on attribute access to missing sub-fields - iterating with the selector then no longer equals filtering afterwards with it")
+    n_ms = 0
+    for mname4, mod4 in sorted(prog.modules.items()):
+        if not (mname4.startswith("flow.record.adapter") or mname4 == "flow.record.stream"):
+            continue
+        for c4 in calls_in(mod4.tree, nested=True):
+            if (call_name(c4) or "").split(".")[-1] != "make_selector":
+                continue
+            n_ms += 1
+            forced = [k for k in c4.keywords if k.arg == "force_compiled" and not (isinstance(k.value, ast.Constant) and k.value.value is False)] + list(c4.args[1:])
+            fn4 = enclosing_function(c4)
+            ctx.check(not forced, "R10.5", f"{qualname_of(fn4).replace('flow.record.', '') if fn4 is not None else mname4}:make_selector", f"`{norm(c4)}` forces the selector engine", c4,
+                      "make_selector(selector)", key=f"R10.5:{mname4.replace('flow.record.', '')}:selector-engine-forced")
+    ctx.floor("R10.5", "make_selector calls in readers", n_ms, 4)
+
